@@ -373,6 +373,50 @@ func genTable(cfg Config, emit func(string, bool, []string)) {
 			emit("table long-quiet", true, g.ops)
 			continue
 		}
+		if c%10 == 1 {
+			// collector vs. an unrelated open writer: table m has collectable deletions, table a
+			// has deletions its iterator has not seen; a transaction on a alone is open
+			g.add("wtxn ma")
+			g.add("changes m")
+			g.add("changes a")
+			for i := 0; i < 3; i++ {
+				g.add("ins m %s %d 0 - - 0 %d", hx([]byte{'g', byte(i)}), i, i+1)
+				g.add("ins a %s %d 0 - - 0 %d", hx([]byte{'h', byte(i)}), i, i+1)
+			}
+			g.add("commit")
+			g.nsnap++
+			g.add("rtxn")
+			g.nsnap++
+			g.add("next 0 s%d -1", g.nsnap-1)
+			g.add("next 1 s%d -1", g.nsnap-1)
+			g.add("wtxn ma")
+			g.add("del m %s", hx([]byte{'g', byte(r.IntN(3))}))
+			g.add("del a %s", hx([]byte{'h', byte(r.IntN(3))}))
+			g.add("commit")
+			g.nsnap++
+			g.add("rtxn")
+			g.nsnap++
+			g.add("next 0 s%d -1", g.nsnap-1)
+			g.add("next 0 s%d -1", g.nsnap-1)
+			g.add("wtxn a")
+			g.add("ins a %s 9 0 - - 0 9", hx([]byte{'h', 9}))
+			g.add("gcwhile")
+			g.add("glen - m")
+			g.add("glen - a")
+			g.add("commit")
+			g.nsnap++
+			g.add("rtxn")
+			g.nsnap++
+			g.add("next 1 s%d -1", g.nsnap-1)
+			g.add("gc")
+			g.add("glen - m")
+			g.add("glen - a")
+			for sn := 0; sn < g.nsnap; sn++ {
+				g.sweep(fmt.Sprintf("s%d", sn), 3)
+			}
+			emit("table collector-vs-writer", true, g.ops)
+			continue
+		}
 		if c%10 == 3 {
 			// restructuring case at table level: primary keys a, abc, abd (+ x outside): deleting
 			// "a" pulls the inner node below it up one level; further writes below it in the SAME
@@ -1517,6 +1561,26 @@ func (e *tableExec) do(o *Out, f []string) string {
 		}
 		e.afterGC(o)
 		return "ok"
+	case "gcwhile":
+		// a complete collection run while a write transaction holding ONLY table a is open:
+		// the collector needs table m alone and must not be delayed by that transaction (C10)
+		if e.wtxn == nil || e.wtables != "a" || e.gcAt == "gc-scanned" || e.collectable("a") > 0 {
+			return "bad-op"
+		}
+		if r := e.gcUntil("gc-triggered"); r != "gc-triggered" {
+			return r
+		}
+		if r := e.gcUntil("gc-committed", "gc-nothing"); r == "timeout" || r == "gave-up" {
+			o.Fail("C10", "collector-blocked-by-unrelated-writer", nil,
+				"a graveyard collection that has nothing to collect in table a did not complete while a write transaction on table a alone was open")
+			// let it go so that the case can be torn down
+			e.wtxn.Abort()
+			e.wtxn = nil
+			e.gcDead = false
+			e.gcWait()
+			return "blocked"
+		}
+		return "ok"
 	case "gcscan":
 		if e.gcAt == "gc-scanned" {
 			return "ok"
@@ -1541,6 +1605,30 @@ func (e *tableExec) do(o *Out, f []string) string {
 		return "ok"
 	}
 	return "bad-op"
+}
+
+// collectable: by the specification, the number of retained deletions of a table that a
+// collection run would discard now (all of them with no open iterator, otherwise those every
+// open iterator has been handed)
+func (e *tableExec) collectable(tn string) int {
+	rt := e.committed.t(tn)
+	minRev := uint64(1<<63 - 1)
+	open := 0
+	for _, it := range e.iters {
+		if it.table == tn && !it.closed {
+			open++
+			if it.trackRev < minRev {
+				minRev = it.trackRev
+			}
+		}
+	}
+	n := 0
+	for _, r := range rt.grave {
+		if open == 0 || r <= minRev {
+			n++
+		}
+	}
+	return n
 }
 
 // afterGC: C08 — after a complete collection run the graveyard holds exactly the
